@@ -514,3 +514,51 @@ func Denotes(impl, spec *Node, al *Allow) (bool, string) {
 	}
 	return true, ""
 }
+
+// EqualModuloInt19 compares two implementation trees and accepts, besides equality, a big-number
+// text on one side against an int64/float64 on the other when the text is a non-negative number
+// whose integer part is a 19-digit value in 9223372036854775800..807 (the parsers' integer fast
+// loop switches to text there, the byte-at-a-time path and the tokenizer do not) and both denote
+// the same value. used reports whether that allowance was needed.
+func EqualModuloInt19(a, b *Node) (equal bool, used bool) {
+	if a.Kind == 'B' && b.Kind != 'B' {
+		a, b = b, a
+	}
+	if b.Kind == 'B' && (a.Kind == 'I' || a.Kind == 'F') {
+		txt, err := UnhexF(b.Text)
+		if err != nil {
+			return false, false
+		}
+		t := string(txt)
+		ip := t
+		if i := strings.IndexAny(t, ".eE"); i >= 0 {
+			ip = t[:i]
+		}
+		if !isInt19(ip) {
+			return false, false
+		}
+		if a.Kind == 'I' {
+			return a.Text == t, true
+		}
+		f, _ := strconv.ParseFloat(t, 64)
+		return fmt.Sprintf("%016x", math.Float64bits(f)) == a.Text, true
+	}
+	if a.Kind != b.Kind || len(a.Kids) != len(b.Kids) {
+		return false, false
+	}
+	switch a.Kind {
+	case '[', '{':
+		for i := range a.Kids {
+			if a.Kind == '{' && a.Keys[i] != b.Keys[i] {
+				return false, false
+			}
+			eq, u := EqualModuloInt19(a.Kids[i], b.Kids[i])
+			if !eq {
+				return false, false
+			}
+			used = used || u
+		}
+		return true, used
+	}
+	return a.Text == b.Text, false
+}
